@@ -150,12 +150,14 @@ func TestVerif(t *testing.T) {
 		"assumptions": info.Assumptions, "fault_kinds": info.FaultKinds, "exhaustive": info.Exhaustive}
 	seen := map[string]bool{}
 	extraExecs := 0 // executions other than one per seed (minimisation, re-execution)
+	newViolations := 0
 	for i := 0; i < count; i++ {
 		if !deadline.IsZero() && time.Now().After(deadline) {
 			break
 		}
-		if os.Getenv("VERIF_STOP_AT_FIRST") != "" && len(wo.Replays)+len(wo.VerifyFresh) > 0 {
-			// evaluation of a deliberately broken tree: one violation settles it
+		if os.Getenv("VERIF_STOP_AT_FIRST") != "" && newViolations > 0 && len(wo.Replays)+len(wo.VerifyFresh) > 0 {
+			// evaluation of a deliberately broken tree: one violation that is
+			// not a listed known finding settles it
 			break
 		}
 		seed := seedStart + uint64(i)
@@ -186,6 +188,9 @@ func TestVerif(t *testing.T) {
 			wo.HarnessError = fmt.Sprintf("seed %d: %s", seed, res.HarnessError)
 			wo.Results = append(wo.Results, res)
 			break
+		}
+		if res.Violation != nil && !strings.Contains(";"+os.Getenv("VERIF_KNOWN_KEYS")+";", ";"+res.Violation.Class+"|"+res.Violation.Site+";") {
+			newViolations++
 		}
 		if res.Violation != nil {
 			key := res.Violation.Key()
